@@ -108,6 +108,11 @@ atom("early_return", "def g(c):\n    if c:\n        w = 1\n    else:\n        w 
 atom("early_return_long", "def g(c):\n    if c:\n        w = note(1)\n        w += 1\n        w += 2\n    else:\n        w = 2\n    return w\na = (g(True), g(False))\n", "a")
 atom("early_continue", "for i in xs:\n    if i > 1:\n        note(i)\n        note(i + 1)\n        note(i + 2)\n        note(i + 3)\n        note(i + 4)\n        note(i + 5)\n", "", ["core"])
 atom("early_continue_else", "for i in xs:\n    if i > 1:\n        note(i)\n        note(i + 1)\n        note(i + 2)\n        note(i + 3)\n    else:\n        note(-i)\n")
+atom("early_continue_else_long", "for i in xs:\n    if i > 1:\n        note(i)\n        note(i + 1)\n        note(i + 2)\n        note(i + 3)\n        note(i + 4)\n        note(i + 5)\n    else:\n        note(-i)\n")
+atom("early_continue_else_two", "n = 0\nfor i in xs:\n    if i != 1:\n        note(i)\n        note(i + 1)\n        note(i + 2)\n        note(i + 3)\n        note(i + 4)\n        note(i + 5)\n        note(i + 6)\n    else:\n        n += 1\n        note('one')\n", "n")
+atom("early_return_else_short", "def g(c):\n    if c:\n        w = note(1)\n        w += 1\n        w += 2\n        w += 3\n        w += 4\n        return w\n    else:\n        note('e')\n    return 0\na = (g(True), g(False))\n", "a")
+atom("bool_order_polluter", "b1 = v < 9 or v > 1 or t.islower()\nb2 = t.islower() or xs.count(1) > 0 or v > 1\n", "b1, b2")
+atom("bool_order_victim", "b0 = (t.islower() and v > 1) or (t.islower() and v < 9)\nb3 = v > 1 and xs.count(1) > 0 and v > 1\n", "b0, b3")
 atom("redundant_else_return", "def g(c):\n    if c:\n        return 1\n    else:\n        return 2\na = (g(True), g(False))\n", "a", ["core"])
 atom("redundant_elif_return", "def g(c):\n    if c > 1:\n        return 1\n    elif c > 0:\n        return 2\n    else:\n        return 3\na = (g(2), g(1), g(0))\n", "a")
 atom("redundant_else_raise", "def g(c):\n    if c:\n        raise ValueError(c)\n    else:\n        note(2)\n    return 3\ntry:\n    a = g(q)\n    g(p)\nexcept ValueError:\n    note('ve')\n", "a")
